@@ -120,14 +120,22 @@ func runC19(p *Program, e *Engine, r *Result, tier string) {
 		return
 	}
 	aw := ro.API["AddWith"]
-	var regFn *ssa.Function // the function on the Add flow that reaches inotify_add_watch and is also called by the handler
+	var regFn *ssa.Function
+	_ = hctx // the function on the Add flow that reaches inotify_add_watch and is also called by the handler
+	// the innermost function below the handler that is also on the Add flow and reaches inotify_add_watch
+	addFns := map[*ssa.Function]bool{}
+	for _, v := range a.walk(aw).Visits {
+		addFns[v.Ctx.Fn] = true
+	}
 	for _, v := range hv {
-		if call, ok := v.Instr.(*ssa.Call); ok && v.Ctx == hctx {
-			if cal := v.Ctx.calleeOf(&call.Call); cal != nil && a.P.inMain(cal) {
+		if call, ok := v.Instr.(*ssa.Call); ok {
+			if cal := v.Ctx.calleeOf(&call.Call); cal != nil && a.P.inMain(cal) && addFns[cal] && cal.Parent() == nil {
 				for _, u := range hv {
 					if u.Ctx.inChain(cal) {
 						if c2 := visitCallee(u); c2 != nil && c2.Name() == "InotifyAddWatch" {
-							regFn = cal
+							if regFn == nil {
+								regFn = cal
+							}
 						}
 					}
 				}
@@ -141,7 +149,7 @@ func runC19(p *Program, e *Engine, r *Result, tier string) {
 		_, opBy := opNames(a)
 		for _, v := range hv {
 			call, ok := v.Instr.(*ssa.Call)
-			if !ok || v.Ctx != hctx || v.Ctx.calleeOf(&call.Call) != regFn {
+			if !ok || v.Ctx.calleeOf(&call.Call) != regFn {
 				continue
 			}
 			// guard: recursive ∧ ISDIR ∧ Create, nothing more (beyond the handler's translate guards)
@@ -188,7 +196,8 @@ func runC19(p *Program, e *Engine, r *Result, tier string) {
 					nameOK = true
 				}
 				if isBoolType(arg.Type()) {
-					if k, ok := arg.(*ssa.Const); ok && k.Value != nil && k.Value.String() == "true" {
+					rv, _ := v.Ctx.resolve(arg)
+					if k, ok := rv.(*ssa.Const); ok && k.Value != nil && k.Value.String() == "true" {
 						recOK = true
 					}
 				}
